@@ -1,5 +1,7 @@
 import RepeVerif.Lemmas.Condvar
 import RepeVerif.Gen.Wake
+import RepeVerif.Model.Transfer
+import RepeVerif.Gen.Transfer
 /-!
 # C12 — A parked producer is always woken by the event it waits for
 
@@ -21,6 +23,13 @@ clause → theorem
   loop order, check-and-park in one critical section) ............. `C12.source_facts`
 * every branch that makes a wait condition true notifies
   (ack, cancel, advance, resume; for both waits; ALL states) ...... `C12.wake_obligation`
+* the same for ANY number of waiters of mixed kinds (needs the
+  extra fact "every notification is notify_all") .................. `C12.source_facts_n`,
+  `C12.multi_parked_implies_not_pred`, `C12.multi_enabling_op_wakes_all`, `C12.multi_mutex_exclusive`
+* composition with the C11/C13 model (`Model/Transfer.lean`): its
+  `step` refines `applyOp` (interface `Refines`), so the obligation
+  holds for its calls ............................................. `C12.transfer_sim`, `C12.transfer_wake_obligation`,
+                                                                     `C12.Refines.wake_obligation`
 * a parked waiter is woken by the very call that makes its
   condition true .................................................. `C12.enabling_op_wakes`
 * never parked while the condition holds, every interleaving ..... `C12.parked_implies_not_pred`
@@ -50,7 +59,9 @@ abbrev cfg : Cfg := Gen.Wake.cfg
 /-- The facts read off the current source: `record_ack`, `cancel`, `advance_to_file` and
 `request_resume` reach `notify_all()` under no more than the guards that coincide with their state
 change, both wait loops test cancel, then the condition, then the deadline, then park, and both hold
-the mutex without a gap from those tests to `wait_timeout` (check-and-park is one critical section). -/
+the mutex without a gap from those tests to `wait_timeout` (check-and-park is one critical section),
+and both re-read the monotonic clock on every pass for the deadline test (`expired` in the model is that
+test's answer; a form that is not re-derived from the clock each pass is modelled as never firing). -/
 theorem source_facts : cfg.Good := by decide
 
 /-- **No lost wake-up, per branch.** For every state, every method call and both waits: if the call
@@ -132,18 +143,19 @@ theorem progress (k : Kind) (st : St) (h : Ready k st) (e : Bool) :
   · have := h.2.2; simp [hb, PC.isReturned] at this
   · obtain ⟨s', hs', _⟩ := runBody_std_true k e st.sh hp
     have hl := source_facts.loopOf k
+    have hck := source_facts.clockOf k
     rcases hpc with h1 | h1 | h1
     · have hl0 : st.locked = false := by
         cases hlk : st.locked with
         | false => rfl
         | true => have := hm.mp hlk; simp [h1] at this
-      simp [run, step, h1, hl0, hl, hs']
+      simp [run, step, h1, hl0, hl, hck, hs']
     · have hl0 : st.locked = false := by
         cases hlk : st.locked with
         | false => rfl
         | true => have := hm.mp hlk; simp [h1] at this
-      simp [run, step, h1, hl0, hl, hs']
-    · simp [run, step, h1, hl, hs']
+      simp [run, step, h1, hl0, hl, hck, hs']
+    · simp [run, step, h1, hl, hck, hs']
 
 /-- **Every maximal run of the waiter's own steps ends in the matching return**: after any waiter
 steps, if no waiter step can change the state any more, the waiter has returned `expected`. -/
@@ -157,6 +169,7 @@ theorem progress_maximal (k : Kind) (st : St) (h : Ready k st) (evs : List Ev)
     generalize run cfg k st evs = st' at *
     obtain ⟨s', hs', _⟩ := runBody_std_true k false st'.sh hp
     have hl := source_facts.loopOf k
+    have hck := source_facts.clockOf k
     rcases hpc with h1 | h1 | h1
     · have hl0 : st'.locked = false := by
         cases hlk : st'.locked with
@@ -171,7 +184,7 @@ theorem progress_maximal (k : Kind) (st : St) (h : Ready k st) (evs : List Ev)
       have := congrArg St.pc (hmax .lock rfl)
       simp [step, h1, hl0] at this
     · have := congrArg St.pc (hmax (.check false) rfl)
-      simp [step, h1, hl, hs'] at this
+      simp [step, h1, hl, hck, hs'] at this
 
 -- non-vacuity of `Ready`: parked waiter, sufficient ack ⇒ woken with the condition true
 example : Ready (.credit 4) (run cfg (.credit 4) (St.init ⟨8, 8, 0, 0, none, none, []⟩)
@@ -220,16 +233,17 @@ theorem timeout_reached (k : Kind) (s0 : Sh) (pre : List Ev)
   have hinv := NoLost.run source_facts pre (NoLost.init k s0)
   generalize run cfg k (St.init s0) pre = st at *
   have hl := source_facts.loopOf k
+  have hck := source_facts.clockOf k
   have hb := runBody_std_false k true st.sh hp
   have hlock : st.pc ≠ .checking → st.locked = false := fun hne => by
     cases hlk : st.locked with
     | false => rfl
     | true => exact absurd (hinv.mutex.mp hlk) hne
   cases hpc : st.pc with
-  | start => simp [run, step, hpc, hlock (by simp [hpc]), hl, hb]
-  | woken => simp [run, step, hpc, hlock (by simp [hpc]), hl, hb]
-  | parked => simp [run, step, hpc, hlock (by simp [hpc]), hl, hb]
-  | checking => simp [run, step, hpc, hl, hb]
+  | start => simp [run, step, hpc, hlock (by simp [hpc]), hl, hck, hb]
+  | woken => simp [run, step, hpc, hlock (by simp [hpc]), hl, hck, hb]
+  | parked => simp [run, step, hpc, hlock (by simp [hpc]), hl, hck, hb]
+  | checking => simp [run, step, hpc, hl, hck, hb]
   | preparking => exact absurd hpc hinv.notPre
   | returned r => simp [hpc, PC.isReturned] at hnr
 
@@ -249,6 +263,204 @@ example : (run cfg (.credit 4) (St.init ⟨8, 8, 0, 0, none, none, []⟩)
     [.lock, .check false, .wake, .lock, .check true]).pc = .returned .timeout := by decide
 example : (run cfg .reconnect (St.init ⟨8, 8, 0, 0, none, none, []⟩)
     [.lock, .check false, .op (.ack 0 2), .wake, .lock, .check true]).pc = .returned .timeout := by decide
+
+/-! ### Any number of waiters (the source says "one producer per transfer"; the protocol does not need it)
+
+`MSt`/`mstep`: a waiter for every natural number, kinds mixed arbitrarily (`kinds i` = credit with any
+chunk length, or reconnect), one mutex (`holder`), `notify_all` wakes every parked waiter.  Reconnect
+waiters compete for the staged resume (`take()`): whoever looks first gets it, which can only turn another
+waiter's condition from true to false, never the other way (`runBody_std_other`). -/
+
+/-- Additional fact for n waiters: every notification in the source is `notify_all`. -/
+theorem source_facts_n : cfg.GoodN := by decide
+
+/-- **No lost wake-up for any number of waiters**, every interleaving: no waiter is parked while its own
+condition holds. -/
+theorem multi_parked_implies_not_pred (kinds : Nat → Kind) (s0 : Sh) (evs : List MEv) (i : Nat) :
+    (mrun cfg kinds (MSt.init s0) evs).pc i = .parked →
+    pred (kinds i) (mrun cfg kinds (MSt.init s0) evs).sh = false :=
+  (MNoLost.run source_facts_n evs (MNoLost.init kinds s0)).parked i
+
+/-- Mutual exclusion: at most one waiter is inside its loop body. -/
+theorem multi_mutex_exclusive (kinds : Nat → Kind) (s0 : Sh) (evs : List MEv) (i j : Nat)
+    (hi : (mrun cfg kinds (MSt.init s0) evs).pc i = .checking)
+    (hj : (mrun cfg kinds (MSt.init s0) evs).pc j = .checking) : i = j := by
+  have h := MNoLost.run source_facts_n evs (MNoLost.init kinds s0)
+  have h1 := (h.mutex i).mp hi
+  have h2 := (h.mutex j).mp hj
+  rw [h1] at h2
+  exact Option.some.inj h2
+
+/-- One call wakes **every** parked waiter whose condition it makes true (whatever `pick` is). -/
+theorem multi_enabling_op_wakes_all (kinds : Nat → Kind) (s0 : Sh) (pre : List MEv) (o : Op) (pick i : Nat)
+    (hfree : (mrun cfg kinds (MSt.init s0) pre).holder = none)
+    (hpk : (mrun cfg kinds (MSt.init s0) pre).pc i = .parked)
+    (h1 : pred (kinds i) (applyOp cfg.tbl o (mrun cfg kinds (MSt.init s0) pre).sh).1 = true) :
+    (mstep cfg kinds (mrun cfg kinds (MSt.init s0) pre) (.op o pick)).pc i = .woken := by
+  have hinv := MNoLost.run source_facts_n pre (MNoLost.init kinds s0)
+  generalize mrun cfg kinds (MSt.init s0) pre = st at *
+  have hn := wake_obligation (kinds i) o st.sh (hinv.parked i hpk) h1
+  have hall : cfg.notifyAll = true := source_facts_n.all
+  simp [mstep, hfree, hn, hall, hpk]
+
+-- non-vacuity: a credit waiter (chunk 4) and a reconnect waiter park; one cancel wakes both
+example :
+    let kinds : Nat → Kind := fun i => if i = 0 then .credit 4 else .reconnect
+    let st := mrun cfg kinds (MSt.init ⟨8, 8, 0, 0, none, none, []⟩)
+      [.lock 0, .check 0 false, .lock 1, .check 1 false]
+    st.pc 0 = .parked ∧ st.pc 1 = .parked ∧ st.holder = none ∧
+    (mstep cfg kinds st (.op (.cancel 7) 0)).pc 0 = .woken ∧
+    (mstep cfg kinds st (.op (.cancel 7) 0)).pc 1 = .woken := by decide
+
+/-- With `notify_one` the n-waiter invariant is false: two credit waiters parked, a cancel wakes the one
+the environment picks (a legitimate choice: waiter 0 is parked), the other sleeps on although cancelled.
+With one waiter (`parked_implies_not_pred`) the two calls cannot be told apart. -/
+def cfgNotifyOne : Cfg := { cfg with notifyAll := false }
+
+example : ¬ cfgNotifyOne.GoodN := by decide
+example : cfgNotifyOne.Good := by decide
+example :
+    let kinds : Nat → Kind := fun _ => .credit 4
+    let st := mrun cfgNotifyOne kinds (MSt.init ⟨8, 8, 0, 0, none, none, []⟩)
+      [.lock 0, .check 0 false, .lock 1, .check 1 false, .op (.cancel 7) 0]
+    st.pc 0 = .woken ∧ st.pc 1 = .parked ∧ pred (kinds 1) st.sh = true := by decide
+
+/-! ### Composition with the C11/C13 model of `TransferControl` (`Model/Transfer.lean`)
+
+`Condvar.Sh`/`applyOp` is a *minimal* transfer state.  The interface another model of `TransferControl`
+has to meet to inherit every theorem above is `Refines`: an abstraction function onto `Sh`, a map from
+its operations to the six signalling `Op`s, and the commutation `abs ∘ step = applyOp ∘ abs` on the states it
+declares regular (`ok`).  The two wait predicates are then `pred k ∘ abs`.  Below the interface is
+instantiated with the C11 model itself (`Transfer.State`, `Transfer.step`, the facts of `Gen.transferFacts`),
+using its definitions directly. -/
+
+/-- What a richer model of `TransferControl` has to provide. -/
+structure Refines (σ ω : Type) (step : σ → ω → σ) where
+  abs : σ → Sh
+  opOf : ω → Option Op
+  /-- states / calls on which the commutation is claimed (e.g. mutex not poisoned, no ring eviction) -/
+  ok : σ → ω → Prop
+  sim : ∀ s o op, opOf o = some op → ok s o → abs (step s o) = (applyOp cfg.tbl op (abs s)).1
+
+/-- **The per-branch obligation transfers to any refining model**: a call of the richer model that turns
+a wait condition (read through `abs`) from false to true is a call that notifies. -/
+theorem Refines.wake_obligation {σ ω : Type} {step : σ → ω → σ} (R : Refines σ ω step)
+    (k : Kind) (s : σ) (o : ω) (op : Op) (hop : R.opOf o = some op) (hok : R.ok s o)
+    (h0 : pred k (R.abs s) = false) (h1 : pred k (R.abs (step s o)) = true) :
+    (applyOp cfg.tbl op (R.abs s)).2 = true := by
+  rw [R.sim s o op hop hok] at h1
+  exact C12.wake_obligation k op (R.abs s) h0 h1
+
+def absT (s : Transfer.State) : Sh :=
+  ⟨s.window, s.sent, s.acked, s.file, s.cancelled, s.pending, s.chunks.map fun c => (c.offset, c.dataLen)⟩
+
+def opOfT : Transfer.Op → Option Op
+  | .recordSent n => some (.sent n)
+  | .recordAck f o => some (.ack f o)
+  | .cancel r => some (.cancel r)
+  | .advance f => some (.advance f)
+  | .requestResume _ f o => some (.resume f o)
+  | .pushReplay off dlen _ _ => some (.push off dlen)
+  | _ => none
+
+/-- Regular calls of the C11 model: mutex not poisoned; for `request_resume` the ring test does not
+overflow and agrees with `ringCovers`; for `push_replay` the contiguity assertion passes and nothing is
+evicted (the C12 model has no eviction). -/
+def okT (f : Transfer.Facts) (m : OvMode) (s : Transfer.State) : Transfer.Op → Prop
+  | .requestResume _ _ off => s.poisoned = false ∧ Transfer.covers f m s.chunks off = .ok (ringCovers (absT s).ring off)
+  | .pushReplay off dlen last body =>
+    s.poisoned = false ∧ (Transfer.step f m s (.pushReplay off dlen last body)).1.chunks = s.chunks ++ [⟨off, dlen, last, body⟩]
+      ∧ (Transfer.step f m s (.pushReplay off dlen last body)).1.poisoned = false
+  | _ => s.poisoned = false
+
+/-- The forms of `record_ack` the C12 model assumes (file test, cap, strict comparison). -/
+def StdAck (f : Transfer.Facts) : Prop := f.ackFileTest = true ∧ f.ackCap = true ∧ f.ackStrict = true
+
+theorem transfer_facts_std : StdAck Gen.transferFacts := ⟨by decide, by decide, by decide⟩
+
+/-- **Simulation**: on regular calls, the C11 model's `step` and this file's `applyOp` commute with `absT`,
+for the facts extracted from the current source and both build profiles. -/
+theorem transfer_sim (m : OvMode) (s : Transfer.State) (o : Transfer.Op) (op : Op)
+    (hop : opOfT o = some op) (hok : okT Gen.transferFacts m s o) :
+    absT (Transfer.step Gen.transferFacts m s o).1 = (applyOp cfg.tbl op (absT s)).1 := by
+  obtain ⟨h1, h2, h3⟩ := transfer_facts_std
+  cases o with
+  | recordSent n =>
+    cases hop
+    have hp : s.poisoned = false := hok
+    simp only [Transfer.step, hp, applyOp, absT]
+    by_cases h : s.sent < n <;> simp [h]
+  | recordAck f off =>
+    cases hop
+    have hp : s.poisoned = false := hok
+    simp only [Transfer.step, hp, applyOp, absT, h1, h2, h3, Transfer.ackAdvances, Transfer.ackCapped]
+    by_cases hf : f = s.file
+    · by_cases ha : s.acked < min off s.sent <;> simp [hf, ha]
+    · simp [hf]
+  | cancel r =>
+    cases hop
+    have hp : s.poisoned = false := hok
+    cases hc : s.cancelled <;> simp [Transfer.step, hp, applyOp, absT, hc]
+  | advance f =>
+    cases hop
+    have hp : s.poisoned = false := hok
+    simp [Transfer.step, hp, applyOp, absT]
+  | requestResume p f off =>
+    cases hop
+    obtain ⟨hp, hcov⟩ := hok
+    simp only [Transfer.step, hp, applyOp, resumeRes]
+    cases hc : s.cancelled with
+    | some r => simp [absT, hc]
+    | none =>
+      by_cases hf : f = s.file
+      · simp only [hcov]
+        cases hr : ringCovers (absT s).ring off with
+        | false => simp [absT, hc, hf] at hr ⊢
+        | true =>
+          by_cases ha : s.acked < off ∧ off ≤ s.sent
+          · simp [absT, hc, hf, ha] at hr ⊢
+          · simp [absT, hc, hf, ha] at hr ⊢
+      · simp [absT, hc, hf]
+  | pushReplay off dlen last body =>
+    cases hop
+    obtain ⟨hp, hch, hp'⟩ := hok
+    by_cases hA : Transfer.pushAssertOk m s.chunks off = true
+    · simp only [Transfer.step, hp, hA, Bool.false_eq_true, if_false, if_true] at hch ⊢
+      simp [absT, applyOp, hch]
+    · simp [Transfer.step, hp, hA, Transfer.poison] at hp'
+  | waitCredit len => cases hop
+  | waitReconnect => cases hop
+  | replayFrom off => cases hop
+  | setPeer p => cases hop
+
+/-- The C11 model refines the C12 transfer state. -/
+def transferRefines (m : OvMode) : Refines Transfer.State Transfer.Op (fun s o => (Transfer.step Gen.transferFacts m s o).1) where
+  abs := absT
+  opOf := opOfT
+  ok := okT Gen.transferFacts m
+  sim := fun s o op hop hok => transfer_sim m s o op hop hok
+
+/-- **Composition**: in the C11 model, any regular call of `record_sent / record_ack / cancel /
+advance_to_file / request_resume / push_replay` after which a wait condition holds that did not hold
+before is a call that reaches `notify_all()`. -/
+theorem transfer_wake_obligation (m : OvMode) (k : Kind) (s : Transfer.State) (o : Transfer.Op) (op : Op)
+    (hop : opOfT o = some op) (hok : okT Gen.transferFacts m s o)
+    (h0 : pred k (absT s) = false)
+    (h1 : pred k (absT (Transfer.step Gen.transferFacts m s o).1) = true) :
+    (applyOp cfg.tbl op (absT s)).2 = true :=
+  (transferRefines m).wake_obligation k s o op hop hok h0 h1
+
+-- non-vacuity: in the C11 model, window 8 full, chunk 4 waiting; `record_ack(0, 4)` is a regular call that
+-- turns the credit condition true (and `request_resume` on the empty ring at offset 0 the reconnect one)
+example :
+    let s : Transfer.State := { window := 8, capacity := 100, sent := 8 }
+    okT Gen.transferFacts .checks s (.recordAck 0 4) ∧
+    pred (.credit 4) (absT s) = false ∧
+    pred (.credit 4) (absT (Transfer.step Gen.transferFacts .checks s (.recordAck 0 4)).1) = true ∧
+    okT Gen.transferFacts .checks s (.requestResume 1 0 0) ∧
+    pred .reconnect (absT s) = false ∧
+    pred .reconnect (absT (Transfer.step Gen.transferFacts .checks s (.requestResume 1 0 0)).1) = true := by
+  refine ⟨rfl, by decide, by decide, ⟨rfl, by decide⟩, by decide, by decide⟩
 
 /-! ### Why the facts matter: the same model with one `notify_all()` removed loses a wake-up -/
 
@@ -277,5 +489,13 @@ example :
     let st := run cfgGap .reconnect (St.init ⟨8, 8, 0, 0, none, none, []⟩)
       [.lock, .check false, .op (.cancel 1), .lock]
     st.pc = .parked ∧ pred .reconnect st.sh = true := by decide
+
+/-- The deadline test not re-derived from the clock on every pass (seed C12-B: a sticky `timed_out()`
+flag): read pessimistically the test may never fire, and `timeout_reached` fails. -/
+def cfgStickyClock : Cfg := { cfg with creditClock := false }
+
+example : ¬ cfgStickyClock.Good := by decide
+example : (run cfgStickyClock (.credit 4) (St.init ⟨8, 8, 0, 0, none, none, []⟩)
+    [.lock, .check false, .wake, .lock, .check true]).pc = .parked := by decide
 
 end Repe.C12
